@@ -119,9 +119,22 @@ def err_record(e):
             "location": dict(loc) if isinstance(loc, dict) else loc}
 
 
-def parse_observed(source, stop=False, matcher=None, parser=None, idgen=None, builder=None, as_scanner=False):
+def file_loadable(text):
+    """Can this text be handed over as a file without the I/O layer changing it?  (UTF-8 encodable, carriage returns only
+    in CRLF pairs — text mode translates a lone CR — and not itself the name of something on disk.)"""
+    if not isinstance(text, str) or "\r" in text.replace("\r\n", "") or len(text) < 300 and os.path.exists(text):
+        return False
+    try:
+        text.encode("utf8")
+    except UnicodeEncodeError:
+        return False
+    return True
+
+
+def parse_observed(source, stop=False, matcher=None, parser=None, idgen=None, builder=None, as_scanner=False, as_file=False):
     """Run the real Parser.parse on `source` under the probes.  With as_scanner the text is handed over
-    as a TokenScanner object (the other documented input form) instead of a string."""
+    as a TokenScanner object (the other documented input form) instead of a string; with as_file (and a text that
+    file_loadable() accepts) it is written to a file first and handed over as TokenScanner(path), as the scripts do."""
     o = Obs()
     o.source = source
     o.stop = stop
@@ -139,7 +152,14 @@ def parse_observed(source, stop=False, matcher=None, parser=None, idgen=None, bu
     with probe.auditing() as opened, probe.observing() as obs, cpu_budget(budget_for(source)):
         try:
             arg = source
-            if as_scanner:
+            tmp_path = None
+            if as_file and file_loadable(source):
+                from gherkin.token_scanner import TokenScanner
+                tmp_path = os.path.abspath("vf-observed-%d.feature" % os.getpid())
+                with open(tmp_path, "wb") as fh:
+                    fh.write(source.encode("utf8"))
+                arg = TokenScanner(tmp_path)
+            elif as_scanner:
                 from gherkin.token_scanner import TokenScanner
                 arg = TokenScanner(source)
             o.ast = parser.parse(arg, matcher) if matcher is not None else parser.parse(arg)
@@ -173,6 +193,16 @@ def parse_observed(source, stop=False, matcher=None, parser=None, idgen=None, bu
             o.exc = e
             o.exc_origin = _origin(e)
             o.tb = "CPU budget of %d s exceeded; stack at that moment:\n%s" % (budget_for(source), traceback.format_exc()[-1200:])
+    if tmp_path is not None:
+        try:
+            getattr(arg, "io").close()
+        except Exception:
+            pass
+        try:
+            os.remove(tmp_path)
+        except OSError:
+            pass
+        opened = [p for p in opened if p != tmp_path]
     o.opened = list(opened)
     o.log = obs.logs[-1] if obs.logs else None
     return o
